@@ -251,8 +251,13 @@ pub fn impl_(ctx: &Context, input: &DeriveInput) -> TokenStream {
                 quote! {},
             );
             quote! {
-                let __flatty_offset = 0;
-                #body
+                {
+                    let __flatty_offset = 0;
+                    // Initialize exactly the bytes the reference returned by `ptr_from_bytes` covers.
+                    let __flatty_len = ::flatty::utils::floor_mul(__flatty_bytes.len(), <#self_ident<#self_args> as FlatBase>::ALIGN);
+                    let __flatty_bytes = __flatty_bytes.get_unchecked_mut(..__flatty_len);
+                    #body
+                }
             }
         }
         Data::Enum(data) => {
